@@ -153,6 +153,8 @@ Section Correct.
   Variable sdo_of : list modid -> opts -> nat.
   Variable thash : list (modid * list modid) -> modid -> nat.
   Variable ign_of : modid -> stamp -> opts -> bool.
+  Variable pkg_of : modid -> stamp -> bool.
+  Variable parent_of : modid -> option modid.
   Variable blocker : modid -> content -> bool.
 
   (* ---- the analysis contract (monitored on the implementation, not proved): THE SCC IS THE UNIT.
@@ -199,12 +201,12 @@ Section Correct.
   Notation load_meta := (Model.load_meta content_of ign_of).
   Notation validate_meta := (Model.validate_meta content_of ign_of).
   Notation restamp := (Model.restamp content_of ign_of).
-  Notation cands := (Model.cands content_of view_of imports probes ign_of).
-  Notation direct_deps := (Model.direct_deps content_of view_of imports probes ign_of).
-  Notation supp_deps := (Model.supp_deps content_of view_of imports ign_of).
+  Notation cands := (Model.cands content_of view_of imports probes ign_of pkg_of parent_of).
+  Notation direct_deps := (Model.direct_deps content_of view_of imports probes ign_of pkg_of parent_of).
+  Notation supp_deps := (Model.supp_deps content_of view_of imports ign_of pkg_of parent_of).
   Notation old_indirect := (Model.old_indirect content_of ign_of).
-  Notation new_indirect := (Model.new_indirect content_of view_of imports probes ign_of).
-  Notation depmap := (Model.depmap content_of view_of imports probes ign_of).
+  Notation new_indirect := (Model.new_indirect content_of view_of imports probes ign_of pkg_of parent_of).
+  Notation depmap := (Model.depmap content_of view_of imports probes ign_of pkg_of parent_of).
   Notation is_fresh := (Model.is_fresh content_of sdo_of ign_of).
   Notation dep_hashes_ok := (Model.dep_hashes_ok content_of ign_of).
   Notation trans_ok := (Model.trans_ok content_of reach thash ign_of).
@@ -212,9 +214,9 @@ Section Correct.
   Notation cached_pm := (Model.cached_pm content_of ign_of).
   Notation fresh_pm := (Model.fresh_pm ign_of).
   Notation src_of := (Model.src_of view_of).
-  Notation write_module := (Model.write_module content_of view_of imports probes sdo_of thash ign_of).
-  Notation process_scc := (Model.process_scc content_of view_of imports probes analyze reach sdo_of thash ign_of).
-  Notation run := (Model.run content_of view_of imports probes analyze sccs_of reach sdo_of thash ign_of).
+  Notation write_module := (Model.write_module content_of view_of imports probes sdo_of thash ign_of pkg_of parent_of).
+  Notation process_scc := (Model.process_scc content_of view_of imports probes analyze reach sdo_of thash ign_of pkg_of parent_of).
+  Notation run := (Model.run content_of view_of imports probes analyze sccs_of reach sdo_of thash ign_of pkg_of parent_of).
 
   Definition eo (e : meta) : opts := {| o_snap := m_snap e; o_version := m_version e; o_plugin := m_plugin e |}.
 
@@ -332,6 +334,7 @@ Section Correct.
     (In d (cands c o fs m s) <-> In d (imports m (view_of m s) o ++ probes m (view_of m s) o)).
   Proof.
     intros K c o fs m s d HC [HP [HK _]] Hs HG. unfold Model.cands. destruct (load_meta c o fs m) as [[e x]|] eqn:L; [|tauto].
+    destruct (Model.reparse content_of ign_of pkg_of parent_of c o fs m); [tauto|].
     destruct (load_ok _ _ _ _ _ _ _ HC L) as [s' [dd [Hs' [_ [_ [_ [Ho [Hh [_ [EOK _]]]]]]]]]].
     rewrite Hs in Hs'; inversion Hs'; subst s'. destruct EOK as [_ [_ [_ [_ [_ [_ [Hi [Hr _]]]]]]]].
     simpl in Hi, Hr. rewrite (HK _ _ _ _ L Hs), Ho in Hi, Hr. split; intros H.
@@ -340,21 +343,23 @@ Section Correct.
   Qed.
 
   Lemma hard_in_cands : forall K c o fs m s, StoreOK K c -> Reuse c o fs -> lookup fs m = Some s ->
-    incl (imports m (view_of m s) o) (Model.hard_cands content_of view_of imports ign_of c o fs m s).
+    incl (imports m (view_of m s) o) (Model.hard_cands content_of view_of imports ign_of pkg_of parent_of c o fs m s).
   Proof.
     intros K c o fs m s HC [_ [HK _]] Hs. unfold Model.hard_cands. destruct (load_meta c o fs m) as [[e x]|] eqn:L.
-    - destruct (load_ok _ _ _ _ _ _ _ HC L) as [s' [dd [Hs' [_ [_ [_ [Ho [Hh [_ [EOK _]]]]]]]]]].
+    - destruct (Model.reparse content_of ign_of pkg_of parent_of c o fs m); [apply incl_refl|].
+      destruct (load_ok _ _ _ _ _ _ _ HC L) as [s' [dd [Hs' [_ [_ [_ [Ho [Hh [_ [EOK _]]]]]]]]]].
       rewrite Hs in Hs'; inversion Hs'; subst s'. destruct EOK as [_ [_ [_ [_ [_ [_ [Hi _]]]]]]].
       simpl in Hi. rewrite (HK _ _ _ _ L Hs), Ho in Hi. exact Hi.
     - apply incl_refl.
   Qed.
 
   Lemma hard_sub : forall K c o fs m s, StoreOK K c -> Reuse c o fs -> lookup fs m = Some s ->
-    incl (Model.hard_cands content_of view_of imports ign_of c o fs m s)
+    incl (Model.hard_cands content_of view_of imports ign_of pkg_of parent_of c o fs m s)
          (imports m (view_of m s) o ++ probes m (view_of m s) o).
   Proof.
     intros K c o fs m s HC [_ [HK _]] Hs. unfold Model.hard_cands. destruct (load_meta c o fs m) as [[e x]|] eqn:L.
-    - destruct (load_ok _ _ _ _ _ _ _ HC L) as [s' [dd [Hs' [_ [_ [_ [Ho [Hh [_ [EOK _]]]]]]]]]].
+    - destruct (Model.reparse content_of ign_of pkg_of parent_of c o fs m); [intros d Hd; apply in_or_app; auto|].
+      destruct (load_ok _ _ _ _ _ _ _ HC L) as [s' [dd [Hs' [_ [_ [_ [Ho [Hh [_ [EOK _]]]]]]]]]].
       rewrite Hs in Hs'; inversion Hs'; subst s'. destruct EOK as [_ [_ [_ [_ [_ [_ [_ [Hr _]]]]]]]].
       simpl in Hr. rewrite (HK _ _ _ _ L Hs), Ho in Hr. exact Hr.
     - intros d Hd. apply in_or_app; auto.
@@ -497,6 +502,19 @@ Section Correct.
     apply andb_true_iff in H as [H _]. apply list_eqb_eq in H. apply deps_eq_spec in H. exists e, x; tauto.
   Qed.
 
+  Lemma fresh_no_reparse : forall c o fs m e x, load_meta c o fs m = Some (e, x) ->
+    (forall d, In d (m_deps e ++ x_deps x) -> inG fs d = true) -> found fs (m_supp e) = [] ->
+    Model.reparse content_of ign_of pkg_of parent_of c o fs m = false.
+  Proof.
+    intros c o fs m e x L Hall Hsupp. unfold Model.reparse. rewrite L. apply orb_false_iff. split.
+    - destruct (existsb (Model.is_pkg_now pkg_of fs) (m_supp e)) eqn:E; auto. apply existsb_exists in E as [d [Hd Hp]].
+      unfold Model.is_pkg_now in Hp. destruct (lookup fs d) eqn:Q; try discriminate.
+      assert (In d (found fs (m_supp e))). { apply found_In. split; auto. apply inG_lookup; eauto. }
+      rewrite Hsupp in H. inversion H.
+    - destruct (existsb _ (m_deps e)) eqn:E; auto. apply existsb_exists in E as [d [Hd Hp]].
+      rewrite (Hall d) in Hp by (apply in_or_app; auto). discriminate.
+  Qed.
+
   Lemma cached_pm_eq : forall c o fs m e x d s, load_meta c o fs m = Some (e, x) -> s_data c m = Some d ->
     lookup fs m = Some s ->
     cached_pm c o fs m = {| p_hash := m_ihash e; p_iface := d_iface d;
@@ -590,7 +608,8 @@ Section Correct.
           rewrite <- (env_hash fs o L1 env d0 q HG Hdom Hq). congruence. }
         assert (DIR : In d0 (m_deps e1) -> In d0 (map fst env)).
         { intros A. assert (In d0 (map fst env ++ S)).
-          { eapply Stopo; eauto. unfold Model.direct_deps, Model.cands. rewrite L1'. apply found_In. split.
+          { eapply Stopo; eauto. unfold Model.direct_deps, Model.cands. rewrite L1'.
+            rewrite (fresh_no_reparse _ _ _ _ _ _ L1' Hall Hsupp). apply found_In. split.
             apply in_or_app; auto. apply Hall. apply in_or_app; auto. }
           apply in_app_or in H as [H|H]; tauto. }
         assert (IND : In d0 (x_deps x1) -> In d0 (r_indirect (analyze S0 src0 o env0 m1)) -> In d0 (map fst env)).
@@ -628,8 +647,8 @@ Section Correct.
     destruct (m_ignore_all e) eqn:MI; auto. specialize (Hig eq_refl). discriminate.
   Qed.
   (* ---- the entry written for a re-analysed module *)
-  Notation new_meta := (Model.new_meta content_of view_of imports probes sdo_of thash ign_of).
-  Notation new_ex := (Model.new_ex content_of view_of imports probes ign_of).
+  Notation new_meta := (Model.new_meta content_of view_of imports probes sdo_of thash ign_of pkg_of parent_of).
+  Notation new_ex := (Model.new_ex content_of view_of imports probes ign_of pkg_of parent_of).
 
   Definition env0_of (c : store) (o : opts) (fs : FS) (env env' : penv) : modid -> option ihash :=
     fun d => match lookup env d with
@@ -1076,9 +1095,9 @@ Section Correct.
 
   (* ---- blocking errors *)
   Notation blocked := (Model.blocked content_of ign_of blocker).
-  Notation warm := (Model.warm content_of view_of imports probes analyze sccs_of reach sdo_of thash ign_of blocker).
-  Notation cold := (Model.cold content_of view_of imports probes analyze sccs_of reach sdo_of thash ign_of blocker).
-  Notation runs := (Model.runs content_of view_of imports probes analyze sccs_of reach sdo_of thash ign_of blocker).
+  Notation warm := (Model.warm content_of view_of imports probes analyze sccs_of reach sdo_of thash ign_of pkg_of parent_of blocker).
+  Notation cold := (Model.cold content_of view_of imports probes analyze sccs_of reach sdo_of thash ign_of pkg_of parent_of blocker).
+  Notation runs := (Model.runs content_of view_of imports probes analyze sccs_of reach sdo_of thash ign_of pkg_of parent_of blocker).
 
   Lemma In_lookup : forall (fs : FS) m s, FSOK fs -> In (m, s) fs -> lookup fs m = Some s.
   Proof.
@@ -1307,6 +1326,8 @@ Section Packaged.
   Variable sdo_of : list modid -> opts -> nat.
   Variable thash : list (modid * list modid) -> modid -> nat.
   Variable ign_of : modid -> stamp -> opts -> bool.
+  Variable pkg_of : modid -> stamp -> bool.
+  Variable parent_of : modid -> option modid.
   Variable blocker : modid -> content -> bool.
 
   (* The analysis contract ("contract, monitored not proved"): the SCC is the unit; no uniqueness assumption. *)
@@ -1337,12 +1358,12 @@ Section Packaged.
       In S (sccs_of dm) -> In m S -> In d (r_indirect (analyze S src o env m)) -> reach dm m d = true }.
 
   Notation CacheOK := (CacheOK content_of view_of imports probes implicits analyze reach thash blocker).
-  Notation SideOK := (SideOK content_of view_of imports probes implicits sccs_of reach ign_of).
-  Notation ProgOK := (ProgOK content_of view_of imports probes implicits sccs_of reach ign_of).
-  Notation HistOK := (HistOK content_of view_of imports probes implicits analyze sccs_of reach sdo_of thash ign_of blocker).
-  Notation warm := (Model.warm content_of view_of imports probes analyze sccs_of reach sdo_of thash ign_of blocker).
-  Notation cold := (Model.cold content_of view_of imports probes analyze sccs_of reach sdo_of thash ign_of blocker).
-  Notation runs := (Model.runs content_of view_of imports probes analyze sccs_of reach sdo_of thash ign_of blocker).
+  Notation SideOK := (SideOK content_of view_of imports probes implicits sccs_of reach ign_of pkg_of parent_of).
+  Notation ProgOK := (ProgOK content_of view_of imports probes implicits sccs_of reach ign_of pkg_of parent_of).
+  Notation HistOK := (HistOK content_of view_of imports probes implicits analyze sccs_of reach sdo_of thash ign_of pkg_of parent_of blocker).
+  Notation warm := (Model.warm content_of view_of imports probes analyze sccs_of reach sdo_of thash ign_of pkg_of parent_of blocker).
+  Notation cold := (Model.cold content_of view_of imports probes analyze sccs_of reach sdo_of thash ign_of pkg_of parent_of blocker).
+  Notation runs := (Model.runs content_of view_of imports probes analyze sccs_of reach sdo_of thash ign_of pkg_of parent_of blocker).
 
   Lemma p_run_preserves : AnalysisContract -> GraphContract ->
     forall c fs o now, CacheOK c -> GenBound c now -> SideOK c o fs -> FSOK fs ->
@@ -1365,10 +1386,10 @@ Section Packaged.
     forall c1 c2 fs o n1 n2, CacheOK c1 -> GenBound c1 n1 -> SideOK c1 o fs -> CacheOK c2 -> GenBound c2 n2 -> SideOK c2 o fs ->
       FSOK fs -> NB content_of blocker fs ->
       forall m s e1 x1 e2 x2, lookup fs m = Some s ->
-        s_meta (snd (Model.run content_of view_of imports probes analyze sccs_of reach sdo_of thash ign_of c1 fs o n1)) m = Some e1 ->
-        s_ex (snd (Model.run content_of view_of imports probes analyze sccs_of reach sdo_of thash ign_of c1 fs o n1)) m = Some x1 ->
-        s_meta (snd (Model.run content_of view_of imports probes analyze sccs_of reach sdo_of thash ign_of c2 fs o n2)) m = Some e2 ->
-        s_ex (snd (Model.run content_of view_of imports probes analyze sccs_of reach sdo_of thash ign_of c2 fs o n2)) m = Some x2 ->
+        s_meta (snd (Model.run content_of view_of imports probes analyze sccs_of reach sdo_of thash ign_of pkg_of parent_of c1 fs o n1)) m = Some e1 ->
+        s_ex (snd (Model.run content_of view_of imports probes analyze sccs_of reach sdo_of thash ign_of pkg_of parent_of c1 fs o n1)) m = Some x1 ->
+        s_meta (snd (Model.run content_of view_of imports probes analyze sccs_of reach sdo_of thash ign_of pkg_of parent_of c2 fs o n2)) m = Some e2 ->
+        s_ex (snd (Model.run content_of view_of imports probes analyze sccs_of reach sdo_of thash ign_of pkg_of parent_of c2 fs o n2)) m = Some x2 ->
         m_hash e1 = m_hash e2 /\ m_ihash e1 = m_ihash e2 /\
         (if ign_of m s o then [] else x_errors x1) = (if ign_of m s o then [] else x_errors x2).
   Proof.
@@ -1398,9 +1419,9 @@ Section Packaged.
     - exfalso. pose proof (find_none _ _ F S HS) as X. simpl in X. apply mem_false in X. auto.
   Qed.
 
-  Lemma implicit_stable_sound : forall c o fs, NoDup (concat (sccs_of (Model.depmap content_of view_of imports probes ign_of c o fs))) ->
-    Model.implicit_stable content_of view_of imports probes implicits sccs_of reach ign_of c o fs = true ->
-    ImplicitStable content_of view_of imports probes implicits sccs_of reach ign_of c o fs.
+  Lemma implicit_stable_sound : forall c o fs, NoDup (concat (sccs_of (Model.depmap content_of view_of imports probes ign_of pkg_of parent_of c o fs))) ->
+    Model.implicit_stable content_of view_of imports probes implicits sccs_of reach ign_of pkg_of parent_of c o fs = true ->
+    ImplicitStable content_of view_of imports probes implicits sccs_of reach ign_of pkg_of parent_of c o fs.
   Proof.
     intros c o fs ND H m s d Hs Hd HG. unfold Model.implicit_stable in H. rewrite forallb_forall in H.
     specialize (H (m, s) (lookup_In _ _ _ _ Hs)). simpl in H. rewrite forallb_forall in H. specialize (H d Hd).
@@ -1411,8 +1432,8 @@ Section Packaged.
   Qed.
 
   Lemma scc_stable_sound : forall c o fs,
-    Model.scc_stable content_of view_of imports probes sccs_of ign_of c o fs = true ->
-    SccFresh content_of view_of imports probes sccs_of ign_of c o fs.
+    Model.scc_stable content_of view_of imports probes sccs_of ign_of pkg_of parent_of c o fs = true ->
+    SccFresh content_of view_of imports probes sccs_of ign_of pkg_of parent_of c o fs.
   Proof.
     intros c o fs H S HS ALLV m e x Hm L. unfold Model.scc_stable in H. rewrite forallb_forall in H.
     specialize (H S HS). apply orb_true_iff in H as [H|H].
